@@ -101,6 +101,19 @@ def plan(tier):
         src.append(shim(d, sname, [(s_, 'a')], 'return cnl::convert<cnl::nearest_rounding_tag, %s, cnl::power<>>{}(cnl::_impl::from_rep<%s>(a));' % (cxx(d), A)))
         jobs.append(Job('%s.S2B.%s' % (PROP, tag), kname, PB, s2s_contract('nearest', S, ei, D, 0, 1), via=sname,
                         shim=sname, shim_types=[s_], oracle=s2s_oracle('nearest', S, ei, D, 0), prop=PROP, timeout=300, layer=1))
+    # ... and under tie_to_pos_inf / neg_inf, which offer the two-argument form convert<Tag, Integer> (seed C09_3: the inner conversion delegated to
+    # the native tag); whole operator inlined
+    PB2 = (r'^cnl::custom_operator<cnl::_impl::convert_op, cnl::op_value<cnl::_impl::wrapper<[a-z_0-9 ]+, cnl::power<-?\d+, 2> >, cnl::_impl::native_tag>, '
+           r'cnl::op_value<[a-z_0-9 ]+, cnl::\w+_rounding_tag> >::operator\(\)\(')
+    for mode in ('tie_pos', 'neg_inf'):
+        for (s_, ei, d) in [('i16', -4, 'i32'), ('i8', -3, 'i32')] + ([('u16', -3, 'i32'), ('i16', -9, 'i64')] if thorough else []):
+            S, D = T(s_), T(d)
+            A = 'cnl::scaled_integer<%s, cnl::power<%d>>' % (cxx(s_), ei)
+            tag = '%s_%s_%s_to_builtin_%s' % (mode, s_, str(ei).replace('-', 'm'), d)
+            sname = 'vp_' + tag
+            src.append(shim(d, sname, [(s_, 'a')], 'return cnl::convert<%s, %s>{}(cnl::_impl::from_rep<%s>(a));' % (TAGS[mode], cxx(d), A)))
+            jobs.append(Job('%s.S2B.%s' % (PROP, tag), kname, PB2, s2s_contract(mode, S, ei, D, 0, 1), via=sname,
+                            shim=sname, shim_types=[s_], oracle=s2s_oracle(mode, S, ei, D, 0), prop=PROP, timeout=300, layer=2))
     # float -> integer under tie_to_pos_inf / neg_inf (rounding/convert_operator.h); nearest uses long double: refused
     PF = r'^cnl::custom_operator<cnl::_impl::convert_op, cnl::op_value<(float|double), cnl::_impl::native_tag>, cnl::op_value<[a-z_0-9 ]+, cnl::\w+_rounding_tag> >::operator\(\)\('
     for mode, tg in (('tie_pos', TAGS['tie_pos']), ('neg_inf', TAGS['neg_inf'])):
